@@ -18,7 +18,12 @@ package main
 //	              factory (directories compared byte for byte), NewDB + UpdateTerm + EnableNotifications as
 //	              handleSnapshot does, then the rest is replayed
 //
+//	R  reads      c06_reads.go: the replica also answers reads of every kind between the entries (and registers
+//	              sequence waiters, takes snapshots); compared after EVERY entry with a replica that applied the log alone
+//
 // SPEC VERDICTS  determinism:routes-differ:live-vs-restart | live-vs-crash-replay | live-vs-snapshot-replay
+//
+//	determinism:routes-differ:reads-interleaved
 //
 //	snapshot:chunk-reassembly-differs
 //
@@ -189,12 +194,20 @@ type c06Route struct {
 	name string // restart | crash-replay | snapshot-replay
 	how  string // the schedule, for the failing-input text
 	bad  bool
+	sig  string // full signature; default determinism:routes-differ:live-vs-<name>
+}
+
+func (rt *c06Route) signature() string {
+	if rt.sig != "" {
+		return rt.sig
+	}
+	return "determinism:routes-differ:live-vs-" + rt.name
 }
 
 func (rt *c06Route) entry(i int, got string) {
 	if got != rt.lg.entries[i].res && !rt.bad {
 		rt.bad = true
-		rt.o.Violation("determinism:routes-differ:live-vs-"+rt.name, fmt.Sprintf("entry #%d %s answered [%s] live and [%s] on route %s (%s); %s",
+		rt.o.Violation(rt.signature(), fmt.Sprintf("entry #%d %s answered [%s] live and [%s] on route %s (%s); %s",
 			i, rt.lg.entries[i].op, rt.lg.entries[i].res, got, rt.name, rt.how, rt.lg.text()))
 	}
 }
@@ -202,7 +215,7 @@ func (rt *c06Route) entry(i int, got string) {
 func (rt *c06Route) final(dump string) {
 	if dump != rt.lg.final && !rt.bad {
 		rt.bad = true
-		rt.o.Violation("determinism:routes-differ:live-vs-"+rt.name, fmt.Sprintf("%s (route %s: %s); %s",
+		rt.o.Violation(rt.signature(), fmt.Sprintf("%s (route %s: %s); %s",
 			firstDiff(rt.lg.final, dump), rt.name, rt.how, rt.lg.text()))
 	}
 	rt.o.Count("route:" + rt.name)
@@ -438,6 +451,7 @@ func c06ReplayLog(o *hx.Out, t []string) {
 		c06RouteRestart(o, rng.Fork(), lg)
 		c06RouteCrash(o, rng.Fork(), lg)
 		c06RouteSnapshot(o, rng.Fork(), lg)
+		c06RouteReads(o, rng.Fork(), lg)
 	}
 }
 
@@ -460,6 +474,7 @@ func c06Main(o *hx.Out, f hx.Flags) {
 		c06RouteRestart(o, crng.Fork(), lg)
 		c06RouteCrash(o, crng.Fork(), lg)
 		c06RouteSnapshot(o, crng.Fork(), lg)
+		c06RouteReads(o, crng.Fork(), lg)
 	}
 	o.Extra["go_seconds"] = time.Since(t0).Seconds()
 }
